@@ -23,6 +23,8 @@ def run(chk):
     it = Interp(repo)
     d = X.Decider(seed=chk.seed, k=3 if chk.tier == 'quick' else 10)
     eq = make_eq(chk, d)
+    from .common import ArrayTwin
+    twin = ArrayTwin(chk, 'R19.7', it, d)
 
     def fact(inst, got, ref, where=None):
         """a formula the code is observed to implement: recorded as evidence, not demanded (C19 states signs and orderings, not the scaling laws)"""
@@ -326,6 +328,7 @@ def run(chk):
     from .common import inplace_lint
     inplace_lint(chk, repo, 'R19.6', ['TidalPy/radiogenics/radiogenic_models.py', 'TidalPy/cooling/cooling_models.py', 'TidalPy/rheology/viscosity/viscosity_models.py', 'TidalPy/rheology/partial_melt/melting_models.py'])
     chk.floor('R19.6', 4)
+    twin.finish(floor=8)
     chk.floor('R19.1', 14); chk.floor('R19.2', 40); chk.floor('R19.3', 14); chk.floor('R19.4', 18)
     chk.assume('all material parameters, temperatures, thicknesses > 0; temperature contrast > float eps; layer thicker than MIN_THICKNESS; |Arrhenius exponent| < ln(float max)')
 
